@@ -60,8 +60,16 @@ func bigBinDiv(f func(z, x, y *big.Int) *big.Int) intrinFn {
 func bigUn(f func(z, x *big.Int) *big.Int) intrinFn {
 	return func(r *Run, fn *ssa.Function, a []Value) Value {
 		if r.intMode != nil {
-			if v, ok := r.intBig(fn, a); ok {
-				return v
+			if x := r.bigCell(a[1], false); x.sym != nil {
+				xt := r.bigTerm(x)
+				switch fn.Name() {
+				case "Neg":
+					r.setBig(r.bigCell(a[0], true), r.ts.INeg(xt))
+					return a[0]
+				case "Abs":
+					r.setBig(r.bigCell(a[0], true), r.ts.Ite(r.ts.ILt(xt, r.ts.IConst(bigZero)), r.ts.INeg(xt), xt))
+					return a[0]
+				}
 			}
 		}
 		x := r.bigCell(a[1], false)
